@@ -315,3 +315,4 @@ RENAME_FUNCS = [(F, n) for n in own.RETURNS_NEW]
 
 EXPLANATION += (' Additions: PAIR/merge-scalars definite form (a covering scalar copied from one input selected by another field), PAIR/recomputed-total shared with C10.')
 EXPLANATION += (' Round 6: ' + "OWN/classified: a new private helper of sequences_lib is analysed through the contract functions that call it; a new public function is 'cannot classify'.")
+EXPLANATION += (' Round 7: ' + 'WELLFORMED/no-negative-event-stored and WELLFORMED/reversed-rejected (scenarios shared with C13).')
